@@ -5,9 +5,11 @@ socket.socket subclass with GATED send()/recv(): a call that reaches the socket 
 it (returning data / accepting the data, or raising ConnectionResetError).  A history is a list of labels
 (coq/IO/ClientLocks.v): Start k m T | Grant k | GiveUp k | Finish k ok.  Every thread is joined under a watchdog.
 
-Real timeouts: T=0 -> 0; finite T -> 0.08 s when the history makes the call give up, 20 s when it is granted or never
-waits; None -> None.  After a Start / Grant the harness waits (<= SETTLE s) until the thread has finished or parked in
-its body; a thread that did neither is "waiting for a lock".
+Real timeouts: T=0 -> 0; finite T -> 0.08 s when the history makes the call give up, 600 s when it is granted or never
+waits; None -> None.  Nothing is decided by a delay: the client's locks are real threading.Lock objects behind a proxy
+(InstrumentedLock) that reports when a call is about to block on them, so after a Start / Grant the harness waits on an
+explicit condition -- the thread has finished, has parked in its body, or is blocking on a lock (SETTLE / WATCHDOG are
+generous upper bounds for a loaded machine).
 Observables: [enabled flags (all 1), [[k, [0, code] | [1] | [2]] ...] final state of every call, send lock free, recv lock free].
 """
 from __future__ import annotations
@@ -18,8 +20,8 @@ import time
 
 import iosim
 
-SETTLE = 0.25
-WATCHDOG = 6.0
+SETTLE = 60.0        # upper bound only: the harness waits on explicit conditions (finished / parked / blocking on a lock)
+WATCHDOG = 90.0
 
 
 class Gates:
@@ -52,7 +54,7 @@ class GatedSocket(_socket.socket):
         g = self.gates
         g.for_call(k)
         g.parked[k].set()
-        if not g.release[k].wait(15.0):
+        if not g.release[k].wait(300.0):
             raise TimeoutError("gate never released (harness)")
         return g.ok[k]
 
@@ -80,10 +82,55 @@ class GatedSocket(_socket.socket):
         return 1
 
 
+class InstrumentedLock:
+    """The client's real threading.Lock behind a thin proxy that tells the harness when a call is about to BLOCK on it
+    (so that "waiting for a lock" is an observed condition, not a guess after a delay)."""
+
+    def __init__(self, name, blocked):
+        self.real = threading.Lock()
+        self.name = name
+        self.blocked = blocked          # call id -> lock name it is (or was last) blocked on
+
+    def acquire(self, blocking=True, timeout=-1):
+        if not blocking:
+            return self.real.acquire(False)
+        if self.real.acquire(False):
+            return True
+        k = _current_call()
+        if k is not None:
+            self.blocked[k] = self.name
+        try:
+            return self.real.acquire(True, timeout)
+        finally:
+            if k is not None:
+                self.blocked.pop(k, None)
+
+    def release(self):
+        self.real.release()
+
+    def locked(self):
+        return self.real.locked()
+
+    def __enter__(self):
+        self.acquire()
+        return self
+
+    def __exit__(self, *a):
+        self.release()
+
+
+class _Box:
+    def __init__(self, lock):
+        self.lock = lock
+
+    def get(self):
+        return self.lock
+
+
 _tcp_listener = None
 
 
-def _make_client(kind, gates):
+def _make_client(kind, gates, blocked):
     global _tcp_listener
     import c11
     if kind == 0:
@@ -97,7 +144,9 @@ def _make_client(kind, gates):
         _socket.socket.connect(c, _tcp_listener.getsockname())
         peer, _ = _tcp_listener.accept()
         client = TCPNetworkClient(c, c11.fixed_protocol(1), max_recv_size=16, retry_interval=1.0)
-        locks = (client._TCPNetworkClient__send_lock.get(), client._TCPNetworkClient__receive_lock.get())
+        locks = (InstrumentedLock("send", blocked), InstrumentedLock("receive", blocked))
+        client._TCPNetworkClient__send_lock = _Box(locks[0])
+        client._TCPNetworkClient__receive_lock = _Box(locks[1])
         return client, peer, locks
     from easynetwork.clients.udp import UDPNetworkClient
     from easynetwork.protocol import DatagramProtocol
@@ -117,14 +166,17 @@ def _make_client(kind, gates):
     b.bind(("127.0.0.1", 0))
     _socket.socket.connect(a, b.getsockname())
     client = UDPNetworkClient(a, DatagramProtocol(Raw()), retry_interval=1.0)
-    locks = (client._UDPNetworkClient__send_lock.get(), client._UDPNetworkClient__receive_lock.get())
+    locks = (InstrumentedLock("send", blocked), InstrumentedLock("receive", blocked))
+    client._UDPNetworkClient__send_lock = _Box(locks[0])
+    client._UDPNetworkClient__receive_lock = _Box(locks[1])
     return client, b, locks
 
 
 def run(inp):
     labels, kind = inp[1], inp[2]
     gates = Gates()
-    client, peer, (send_lock, recv_lock) = _make_client(kind, gates)
+    blocked = {}
+    client, peer, (send_lock, recv_lock) = _make_client(kind, gates, blocked)
     threads, results, order = {}, {}, []
     gives_up = {lb[1] for lb in labels if lb[0] == 2}
     trace = []          # after every Start: (k, method, observed state, methods of the calls parked in their body)
@@ -134,11 +186,14 @@ def run(inp):
     waiting = set()     # model ids the harness has seen blocked on a lock
 
     def real_state(r):
+        """[0, code] finished | [1] parked in its body | [2] blocked in a blocking lock acquire | [3] still running"""
         if r in results:
             return [0, results[r]]
         if gates.parked.get(r) is not None and gates.parked[r].is_set() and not gates.release[r].is_set():
             return [1]
-        return [2]
+        if r in blocked:
+            return [2]
+        return [3]
 
     def state_of(k):
         return real_state(alias[k])
@@ -151,7 +206,7 @@ def run(inp):
         deadline = time.monotonic() + limit
         while time.monotonic() < deadline:
             for j in cands:
-                if real_state(alias[j])[0] in (0, 1):
+                if real_state(alias[j])[0] in (0, 1):       # finished or parked: this one got the lock
                     if j != k:
                         alias[k], alias[j] = alias[j], alias[k]
                     waiting.discard(k)
@@ -160,12 +215,13 @@ def run(inp):
         return state_of(k)
 
     def settle(k, limit):
+        """Wait until call k has finished, parked in its body, or is observed blocking on a lock."""
         deadline = time.monotonic() + limit
         while time.monotonic() < deadline:
             st = state_of(k)
-            if st[0] in (0, 1):
+            if st[0] in (0, 1, 2):
                 return st
-            time.sleep(0.002)
+            time.sleep(0.001)
         return state_of(k)
 
     def body(k, m, timeout):
@@ -190,7 +246,7 @@ def run(inp):
                 methods[k] = m
                 alias[k] = k
                 kind_of[k] = (m, None if T is None else (0 if T == 0 else ("giveup" if k in gives_up else "long")))
-                timeout = None if T is None else (0.0 if T == 0 else (-1.0 if T < 0 else (0.08 if k in gives_up else 20.0)))
+                timeout = None if T is None else (0.0 if T == 0 else (-1.0 if T < 0 else (0.08 if k in gives_up else 600.0)))
                 th = threading.Thread(target=body, args=(k, m, timeout), name=f"call-{k}", daemon=True)
                 threads[k] = th
                 order.append(k)
@@ -211,7 +267,7 @@ def run(inp):
                 gates.ok[r] = bool(ok)
                 gates.release[r].set()
                 threads[r].join(WATCHDOG)
-        final = [[k, state_of(k)] for k in order]
+        final = [[k, settle(k, WATCHDOG)] for k in order]
         free = [0 if send_lock.locked() else 1, 0 if recv_lock.locked() else 1]
     finally:
         for k in order:
